@@ -81,6 +81,7 @@ type opts struct {
 	jsonEscape    txjson.EscapeType
 	pretty        bool
 	positions     []int // fixed-length: nil = automatic
+	readPos       []int // fixed-length: positions used for READING only (nil = the same as positions)
 	singleLine    bool
 }
 
